@@ -20,7 +20,7 @@ EXPLANATION = (
     'check and has no legal move (mate first); (3) EngineControl::setupPosition pushes the hash before makeMove and drops the history '
     'only on reversible-move information (half-move clock zero, or more than 100 reversible plies); Search::init takes the first-new '
     'index from the history size; (4) every Game::GameState enumerator has an arm in getGameStateString and getPGNResultString.')
-UNDECIDED = ('the index arithmetic of canClaimDrawRep (start -4, step 2, clock bound) - value-level off-by-one territory; console draw '
+UNDECIDED = ('equality of hash keys for rule-equal positions beyond the structural clauses (value-level); the index arithmetic of canClaimDrawRep (start -4, step 2, clock bound) - value-level off-by-one territory; console draw '
              'claim semantics. Noticed, outside the property as stated and therefore not reported: WorkerThread::doSearch pushes the hash '
              'of the position AFTER the root move, so helper threads miss in-tree repetitions of the root position (never compared at the root level).')
 ASSUMPTIONS = ['exceptional exits (StopSearch, HelperThreadResult) restore the stack in their handlers (checked in C02.7)']
@@ -63,6 +63,33 @@ def run(fb, rep, tier):
     c2_order(fb, rep)
     c3_history(fb, rep)
     c4_states(fb, rep)
+    c5_ep_tables(fb, rep)
+
+
+def c5_ep_tables(fb, rep):
+    """K12 (shared with C01.6): the en-passant capture masks makeMove consults before setting an en-passant
+    square are built from squares whose file stays on the board.  A wrapped file makes makeMove record an
+    en-passant square nobody can use; the position then hashes and compares differently from the identical
+    position reached later (the en-passant file is part of zobristHash / drawRuleEquals) and a genuine
+    repetition is not counted."""
+    from . import C01
+    clause = 'C11.5'
+    n = C01.square_ctor_ranges(fb, rep, clause, only_tables=('epMaskW', 'epMaskB'))
+    rep.floor(clause, 'squares fed into the en-passant mask tables', n or 0, 4)
+    # makeMove sets the en-passant square only under the mask test
+    mk = fb.find1('Position::makeMove')
+    if rep.need(clause, mk, 'Position::makeMove'):
+        sets = []
+        for b, i, e in mk.events():
+            if e.get('k') == 'call' and cname(e) == 'Position::setEpSquare':
+                a = show(e['args'][0]) if e.get('args') else ''
+                if '-1' in a:
+                    continue
+                gs = [show(g, 200) for g, sd in G.guard_trees(mk, set(mk.blocks), b) if sd]
+                sets.append((e, any('epMaskW' in g or 'epMaskB' in g for g in gs)))
+        rep.floor(clause, 'en-passant square assignments in makeMove', len(sets), 2)
+        for e, ok in sets:
+            rep.ob(clause, 'K4 guard', 'makeMove records an en-passant square only when the mask table says an enemy pawn can capture (%s)' % show(e, 60), ok, R.site(mk, e), '', mk.sname)
 
 
 def c1_stack(fb, rep):
